@@ -684,7 +684,7 @@ func (c *c40Case) stepSyn(s c40Step) {
 		id += uint32(2 * (s.C % 3))
 		tag := strconv.Itoa(int(id))
 		cl := int64(-1)
-		if !fin && s.B%5 == 1 {
+		if !fin && s.B%7 == 3 {
 			cl = int64(s.D % 3000)
 		}
 		c.log("SYN(%d fin=%v cl=%d)", id, fin, cl)
@@ -1510,7 +1510,7 @@ func TestC40(t *testing.T) {
 		[]c40Step{{Op: "syn", B: 1}, {Op: "syn", A: 6, D: 3}, {Op: "rst", A: 1, B: 0}, {Op: "ping"}, {Op: "syn", B: 1}},
 		[]c40Step{{Op: "syn", A: 6, D: 2}, {Op: "data", A: 7, D: 3}, {Op: "syn", A: 6, D: 4}, {Op: "syn", A: 7}},
 		// bytes consumed by the handler after the stream was closed still replenish the session window
-		[]c40Step{{Op: "syn", B: 1}, {Op: "data", A: 0, B: 1, C: 1, D: 999}, {Op: "read", A: 0, B: 0, D: 399}, {Op: "race", A: 0, B: 1}, {Op: "syn", B: 1}},
+		[]c40Step{{Op: "syn", B: 1}, {Op: "data", A: 0, B: 1, C: 1, D: 199}, {Op: "read", A: 0, B: 0, D: 99}, {Op: "race", A: 0, B: 1}, {Op: "syn", B: 1}},
 		[]c40Step{{Op: "syn", B: 1}, {Op: "data", A: 0, B: 1, C: 1, D: 150}, {Op: "race", A: 1, B: 1}},
 		[]c40Step{{Op: "syn", B: 1}, {Op: "data", A: 0, B: 1, C: 0, D: 150}, {Op: "race", A: 1, B: 0, D: 7}})
 	for _, sc := range fixed {
